@@ -62,6 +62,9 @@ func (r *repair) search() (int, uint64, *DbState) {
 	for skip := 1; ; skip *= 2 {
 		var done bool
 		offsets, done = scnr.getUpTo(i)
+		if done && len(offsets) == 0 {
+			return 0, 0, nil // no states
+		}
 		if done {
 			i = len(offsets) - 1
 			if i == prev {
